@@ -39,6 +39,10 @@ CHECKS = {
     "C11": ("robot", ROBOT_TECH + " x fault plans on getters; independent NetworkTables read after every iteration", ROBOT_TEXT, "4 (robot engine, C11)"),
     "C14": ("selector", "exhaustive enumeration of generated autonomous packages on disk x FMS flag against a set-level discovery model; prefix-replay DFS over all start/periodic/disable histories x selection sources; run() periods through the real MagicRobot loop", "The package family (modules x classes x MODE_NAME/DISABLED/DEFAULT/raising constructor/failing import) is enumerated completely and loaded by the real selector; every operation history up to the stated length is executed and its exact callback log compared.", "4 (selector engine)"),
     "C15": ("sa", "bounded exhaustive exploration (prefix-replay DFS) of generated StatefulAutonomous subclasses over all on_enable / on_iteration(tm) / dashboard-edit sequences and in-state actions, lock-step reference model", "Every operation sequence up to the stated depth, over several autonomous periods on the same instance, is executed on the real class and compared with a reference model whose periods are independent by construction.", "4 (sa engine)"),
+    "C16": ("notifier", "exhaustive enumeration of loop-body-duration schedules driving the real NotifierDelay (real HAL notifier) in a baton-controlled worker thread; oracle on the programmed alarm (read from the HAL) and the FPGA time at which wait() returns", "Every schedule of the stated length over six characteristic body durations and four periods is executed; the claim is coverage of that schedule space.", "4 (notifier engine)"),
+    "C17": ("inputs", "exhaustive enumeration of the finite input domain (all 4096 ADC codes, a 1/65536 V grid, boundary doubles) and of short setDistance/external-voltage histories on the simulation helpers", "The hardware-producible input set is finite and enumerated completely; other doubles are represented by boundary values and grids (stated limit).", "4 (inputs engine, C17)"),
+    "C18": ("inputs", "exhaustive enumeration of unit triples (built-in and generated user-defined chains) x value alphabet, sensor readings on grids, and all short calibrate/voltage histories of the pressure sensor", "Finite families enumerated completely against independently computed ratios / formulas.", "4 (inputs engine, C18)"),
+    "C19": ("ctl", "explicit-state BFS with replay over sample / record / watchdog operation sequences on the real objects (closed where the clamped state space is finite), exact models or clause monitors, flat sequences as cross-check", "Toggle, ButtonDebouncer and PeriodicFilter state spaces close under the operation alphabet, giving all reachable states; SimpleWatchdog and debounced Toggle are explored to the stated depth.", "4 (ctl engine)"),
     "C20": (
         "crc",
         "explicit-state BFS over the closed 128-state checksum register through the real crc7(), plus exhaustive error-pattern and short-message enumeration",
